@@ -11,6 +11,10 @@ import (
 	"github.com/cloudflare/circl/blindsign/blindrsa"
 	"github.com/cloudflare/circl/blindsign/blindrsa/partiallyblindrsa"
 	"github.com/cloudflare/circl/cipher/ascon"
+	"github.com/cloudflare/circl/dh/curve4q"
+	"github.com/cloudflare/circl/dh/x25519"
+	"github.com/cloudflare/circl/dh/x448"
+	"github.com/cloudflare/circl/ecc/fourq"
 	"github.com/cloudflare/circl/expander"
 	"github.com/cloudflare/circl/group"
 	"github.com/cloudflare/circl/hpke"
@@ -189,7 +193,15 @@ func TestC11SeqArgs(t *testing.T) {
 			if err != nil {
 				return err.Error()
 			}
-			return fmt.Sprintf("%x %v", vlib.Hash64(sig), sc.Verify(pk2, msg, sigA, opts))
+			out := fmt.Sprintf("%x %v", vlib.Hash64(sig), sc.Verify(pk2, msg, sigA, opts))
+			// refused inputs are operands too: an altered signature / key must be left as it was handed in
+			badSig := get(vlib.Mutate(t, sig, nil, "badsig").Out)
+			badPk := get(vlib.Mutate(t, mb(pk.MarshalBinary()), nil, "badpk").Out)
+			out += fmt.Sprint(sc.Verify(pk2, msg, badSig, opts))
+			if pk3, err := sc.UnmarshalBinaryPublicKey(badPk); err == nil {
+				out += fmt.Sprint(sc.Verify(pk3, msg, sigA, opts))
+			}
+			return out
 		}})
 	}
 	for _, ks := range allKEMs() {
@@ -210,7 +222,11 @@ func TestC11SeqArgs(t *testing.T) {
 				return err2.Error()
 			}
 			ss3, _ := ks.Decapsulate(sk2, ctA)
-			return fmt.Sprintf("%x %x %x %v", ss, ss2, ss3, err)
+			badCt := get(vlib.Mutate(t, ct, nil, "badct").Out)
+			ss4, err4 := ks.Decapsulate(sk2, badCt)
+			badPk := get(vlib.Mutate(t, mb(pk.MarshalBinary()), nil, "badpk").Out)
+			_, err5 := ks.UnmarshalBinaryPublicKey(badPk)
+			return fmt.Sprintf("%x %x %x %v %x %v %v", ss, ss2, ss3, err, ss4, err4 == nil, err5 == nil)
 		}})
 	}
 	rsaKeys := loadRSAKeys()
@@ -303,6 +319,65 @@ func TestC11SeqArgs(t *testing.T) {
 				out += fmt.Sprintf("%x", o[:8])
 			}
 			return out
+		}},
+	)
+	calls = append(calls,
+		call{"fourq.Unmarshal+curve4q.Shared", func(get func([]byte) []byte, t *rapid.T) string {
+			var k [32]byte
+			copy(k[:], vlib.Bytes(t, 32, 32, "k"))
+			var P fourq.Point
+			P.ScalarBaseMult(&k)
+			var enc [32]byte
+			P.Marshal(&enc)
+			// structured refusals: sign bit, a coordinate component equal to p or with its top bit set
+			switch rapid.IntRange(0, 5).Draw(t, "hostile") {
+			case 1:
+				enc[31] |= 0x80
+				enc[15] |= 0x80
+			case 2:
+				enc[31] |= 0x80
+				for i := 0; i < 15; i++ {
+					enc[i] = 0xff
+				}
+				enc[15] = 0x7f
+			case 3:
+				for i := 16; i < 31; i++ {
+					enc[i] = 0xff
+				}
+				enc[31] = 0xff
+			case 4:
+				enc[rapid.IntRange(0, 31).Draw(t, "fb")] ^= 1 << rapid.IntRange(0, 7).Draw(t, "fbit")
+				enc[31] |= 0x80
+			case 5:
+				vlib.FillRandom(t, enc[:], "frnd")
+			}
+			in := (*[32]byte)(get(enc[:]))
+			var Q fourq.Point
+			ok := Q.Unmarshal(in)
+			var sh, sk curve4q.Key
+			copy(sk[:], k[:])
+			pub := (*curve4q.Key)(get(enc[:]))
+			ok2 := curve4q.Shared(&sh, &sk, pub)
+			return fmt.Sprint(ok, ok2, sh[:4])
+		}},
+		call{"x25519+x448.Shared", func(get func([]byte) []byte, t *rapid.T) string {
+			u := vlib.Bytes(t, 56, 56, "u")
+			if rapid.Bool().Draw(t, "noncanonical") {
+				for i := range u {
+					u[i] = 0xff
+				}
+				u[0] = byte(rapid.SampledFrom([]int{0xec, 0xed, 0xee, 0xff, 0xfe}).Draw(t, "u0"))
+			}
+			sk := vlib.Bytes(t, 56, 56, "sk")
+			var s1, k1 x25519.Key
+			copy(k1[:], sk)
+			p1 := (*x25519.Key)(get(u[:32]))
+			ok1 := x25519.Shared(&s1, (*x25519.Key)(get(k1[:])), p1)
+			var s2, k2 x448.Key
+			copy(k2[:], sk)
+			p2 := (*x448.Key)(get(u))
+			ok2 := x448.Shared(&s2, (*x448.Key)(get(k2[:])), p2)
+			return fmt.Sprintf("%v %x %v %x", ok1, s1[:4], ok2, s2[:4])
 		}},
 	)
 	sub := "seq/args"
